@@ -40,6 +40,7 @@ func c10(c *Ctx) {
 	sConfigCodec(c, "R8/S-CFGCODEC")
 	sState(c, "R7/S-STATE")
 	c10R9(c, "R9")
+	sCommitCoversConfig(c, "R10/S-COMMITCFG")
 }
 
 func c10R1(c *Ctx, rule string) {
